@@ -2404,7 +2404,7 @@ private:
 
          // apply new row and existing column scaling factors to new values in RowSet
          if(scale)
-            vec.value(j) = spxLdexp(vec.value(j), newRowScaleExp + colscaleExp[i]);
+            vec.value(j) = spxLdexp(vec.value(j), newRowScaleExp + (i < nCols() ? colscaleExp[i] : 0));
 
          R val = vec.value(j);
 
@@ -2462,7 +2462,7 @@ private:
 
          // apply new row and existing column scaling factors to new values in RowSet
          if(scale)
-            vec.value(j) = spxLdexp(vec.value(j), newRowScaleExp + colscaleExp[i]);
+            vec.value(j) = spxLdexp(vec.value(j), newRowScaleExp + (i < nCols() ? colscaleExp[i] : 0));
 
          R val = vec.value(j);
 
@@ -2637,7 +2637,7 @@ private:
 
          // apply new column and existing row scaling factors to new values in ColSet
          if(scale)
-            vec.value(j) = spxLdexp(vec.value(j), newColScaleExp + rowscaleExp[i]);
+            vec.value(j) = spxLdexp(vec.value(j), newColScaleExp + (i < nRows() ? rowscaleExp[i] : 0));
 
          R val = vec.value(j);
 
@@ -2697,7 +2697,7 @@ private:
          int i = vec.index(j);
 
          if(scale)
-            vec.value(j) = spxLdexp(vec.value(j), newColScaleExp + rowscaleExp[i]);
+            vec.value(j) = spxLdexp(vec.value(j), newColScaleExp + (i < nRows() ? rowscaleExp[i] : 0));
 
          R val = vec.value(j);
 
